@@ -50,6 +50,9 @@ type PayloadShape struct {
 	FanOut    int    `json:"fan_out,omitempty"`    // next-links per frame group (default 5)
 	Checksum  string `json:"checksum,omitempty"`   // "crc64" (default) | "fnv" | "none"
 	Bare      bool   `json:"bare,omitempty"`       // single frame without hash/index/total (oldest layout)
+	// Commission (rewards payloads only): commission strings of two further reward entries, e.g. "7" and "" or
+	// a value that is not a number
+	Commission []string `json:"commission,omitempty"`
 }
 
 type TxShape struct {
@@ -364,6 +367,9 @@ func Generate(shape Shape) *Truth {
 		if bs.Rewards != nil {
 			// a valid Rewards protobuf; padding = extra reward entries with incompressible keys
 			rws := &confirmed_block.Rewards{Rewards: []*confirmed_block.Reward{{Pubkey: Account(7).String(), Lamports: int64(slot), PostBalance: 42, RewardType: confirmed_block.RewardType_Fee}}}
+			for ci, cm := range bs.Rewards.Commission {
+				rws.Rewards = append(rws.Rewards, &confirmed_block.Reward{Pubkey: Account(20 + ci).String(), Lamports: 5, PostBalance: 6, RewardType: confirmed_block.RewardType_Voting, Commission: cm})
+			}
 			for n := 0; n < bs.Rewards.Pad; n += 44 {
 				rws.Rewards = append(rws.Rewards, &confirmed_block.Reward{Pubkey: solana.PublicKeyFromBytes(g.rnd(32, "rewardkey")).String(), Lamports: 1, PostBalance: 2, RewardType: confirmed_block.RewardType_Rent})
 			}
